@@ -11,6 +11,7 @@ import (
 	"strings"
 	"testing"
 
+	"github.com/polynetwork/poly/common/verifclock"
 	"github.com/polynetwork/poly/native/service/header_sync/eth"
 	"github.com/polynetwork/poly/native/service/utils"
 	"pgregory.net/rapid"
@@ -46,6 +47,7 @@ type c27Case struct {
 	RootDiff string    `json:"rootDiff,omitempty"`
 	RootGL   uint64    `json:"rootGL,omitempty"`
 	RootFee  string    `json:"rootFee,omitempty"`
+	NowOff   uint64    `json:"nowOff,omitempty"` // eth: the (fake) wall clock of the run = root time + NowOff
 	Nodes    []c27Node `json:"nodes"`
 	Ops      []c27Op   `json:"ops"`
 }
@@ -72,6 +74,8 @@ func genC27(t *rapid.T) c27Case {
 		}
 		c.RootGL = rapid.Uint64Range(5000, 30_000_000).Draw(t, "rootGL")
 		c.RootFee = genFeeHex().Draw(t, "rootFee")
+		// mostly far ahead of every header; sometimes so close that deep / slow headers lie in the future
+		c.NowOff = rapid.OneOf(rapid.Just(uint64(10_000_000)), rapid.Just(uint64(10_000_000)), rapid.Uint64Range(0, 12000)).Draw(t, "nowOff")
 	} else {
 		c.Net = 2
 		c.RootNum = rapid.OneOf(rapid.Uint64Range(0, 5000), rapid.SampledFrom([]uint64{0, 2014, 2015, 2016, 4031, 4032, 1<<32 - 40})).Draw(t, "rootNum")
@@ -154,6 +158,7 @@ type mNode struct {
 	raw     []byte
 	silent  bool // btc: invalid header that is skipped without an error
 	reject  bool // header the router must refuse with an error
+	kind    string // why: "num-wrap" | "future"
 	exclude bool // never submitted (known finding excluded by construction)
 }
 
@@ -177,7 +182,7 @@ func (m *model) clone() *model {
 
 // apply processes one batch the way one syncBlockHeader transaction must: sequentially, known
 // headers skipped, first-seen heaviest head; any refusal aborts (and rolls back) the whole call.
-func (m *model) apply(batch []int) (next *model, ok bool, why string) {
+func (m *model) apply(batch []int) (next *model, ok bool, why string, failNode int) {
 	c := m.clone()
 	for _, i := range batch {
 		nd := c.nodes[i]
@@ -185,10 +190,10 @@ func (m *model) apply(batch []int) (next *model, ok bool, why string) {
 			continue
 		}
 		if nd.parent < 0 || !c.stored[nd.parent] {
-			return m, false, fmt.Sprintf("node %d: parent %d unknown", i, nd.parent)
+			return m, false, fmt.Sprintf("node %d: parent %d unknown", i, nd.parent), i
 		}
 		if nd.reject {
-			return m, false, fmt.Sprintf("node %d: invalid header", i)
+			return m, false, fmt.Sprintf("node %d: invalid header (%s)", i, nd.kind), i
 		}
 		if nd.silent {
 			continue
@@ -199,7 +204,7 @@ func (m *model) apply(batch []int) (next *model, ok bool, why string) {
 			c.head = i
 		}
 	}
-	return c, true, ""
+	return c, true, "", -1
 }
 
 func (m *model) eligible() []int {
@@ -275,6 +280,8 @@ func (m *model) excludeFilter(batch []int) []int {
 	return out
 }
 
+const ethRootTime = 1_550_000_000
+
 const keyEthNumWrap = "eth-header-number-truncated-to-uint64"
 
 // ---- ETH adapter -----------------------------------------------------------------------------
@@ -285,7 +292,7 @@ func buildEthTree(ctx *ev.Ctx, c c27Case) (hs []*hdr, nodes []*mNode) {
 	if c.Net == 1 && rootNum > mainnetGrayGlacier-40 {
 		rootNum = mainnetGrayGlacier - 40
 	}
-	root := &hdr{Number: bigHex(new(big.Int).SetUint64(rootNum)), Diff: c.RootDiff, GasLimit: c.RootGL, GasUsed: c.RootGL / 3, Time: 1_550_000_000,
+	root := &hdr{Number: bigHex(new(big.Int).SetUint64(rootNum)), Diff: c.RootDiff, GasLimit: c.RootGL, GasUsed: c.RootGL / 3, Time: ethRootTime,
 		Uncle: ev.B(emptyUncleHash), Parent: ev.B{0xaa}, Root: ev.B{0xbb}}
 	if hexBig(c.RootDiff).Cmp(minimumDifficulty) < 0 {
 		root.Diff = bigHex(minimumDifficulty)
@@ -307,7 +314,10 @@ func buildEthTree(ctx *ev.Ctx, c c27Case) (hs []*hdr, nodes []*mNode) {
 		if nd.Bad == "num-wrap" {
 			// number = parent+1 (mod 2^64) but not parent+1: must be refused
 			h.Number = bigHex(new(big.Int).Add(h.number(), wrap))
-			mn.reject = true
+			mn.reject, mn.kind = true, "num-wrap"
+		} else if h.Time > ethRootTime+c.NowOff+15 {
+			// more than 15 s ahead of the (fake) wall clock: a future block, must be refused
+			mn.reject, mn.kind = true, "future"
 		}
 		seal(ctx, h)
 		mn.hash, mn.own, mn.height, mn.raw = refHash(h), h.diff(), h.number(), headerJSON(h)
@@ -738,6 +748,8 @@ func runC27(ctx *ev.Ctx, c c27Case) {
 	case "eth":
 		restore := sealSwitch()
 		defer restore()
+		verifclock.SetFake(int64(ethRootTime + c.NowOff))
+		defer verifclock.ClearFake()
 		w = newWorldWithChain(c.Net, ethChainID, utils.ETH_ROUTER, []byte{0xcc, 0x01})
 		_, nodes = buildEthTree(ctx, c)
 		chainID = ethChainID
@@ -780,7 +792,7 @@ func runC27(ctx *ev.Ctx, c c27Case) {
 			continue
 		}
 		what := fmt.Sprintf("op %d (%s %v)", oi, op.Kind, batch)
-		next, ok, why := m.apply(batch)
+		next, ok, why, failNode := m.apply(batch)
 		raws := make([][]byte, len(batch))
 		for i, b := range batch {
 			raws[i] = nodes[b].raw
@@ -793,13 +805,7 @@ func runC27(ctx *ev.Ctx, c c27Case) {
 		if !ok {
 			// orphan / invalid header inside the call: the call must fail and leave nothing behind
 			if res.Err == nil {
-				wrapNode := -1
-				for _, b := range batch {
-					if nodes[b].reject {
-						wrapNode = b
-					}
-				}
-				if wrapNode >= 0 && strings.Contains(why, "invalid header") {
+				if wrapNode := failNode; strings.Contains(why, "invalid header (num-wrap)") {
 					ctx.Known(keyEthNumWrap, "%s: header with number = parent+1+2^64 (%v on parent %v) was accepted: the height test compares Number.Uint64()",
 						what, nodes[wrapNode].height, nodes[nodes[wrapNode].parent].height)
 					// known finding: put the store back to the state before the call (what a refusal
@@ -813,7 +819,11 @@ func runC27(ctx *ev.Ctx, c c27Case) {
 			if d := world.DiffDump(before, w.Dump()); d != "" {
 				ctx.Failf("%s: refused call (%s) changed the store: %s", what, why, d)
 			}
-			ctx.Label("op:refused(" + strings.SplitN(why, ": ", 2)[1][:7] + ")")
+			if strings.Contains(why, "invalid header") {
+				ctx.Label("op:refused(invalid:" + nodes[failNode].kind + ")")
+			} else {
+				ctx.Label("op:refused(orphan)")
+			}
 			continue
 		}
 		if res.Err != nil {
@@ -869,6 +879,8 @@ func runC27(ctx *ev.Ctx, c c27Case) {
 }
 
 func TestC27(t *testing.T) {
+	verifclock.Reset()
+	defer func() { ev.Get("C27").Extra("clock_sites", verifclock.Snapshot()) }()
 	ev.Drive(t, "C27",
 		"cases: a block tree of 1..25 headers over a trust root (70% chain continuation, otherwise a fork from any earlier node; per-branch fast/slow block "+
 			"times so that a shorter branch can be heavier; BTC: per-header work 2..512 on regtest with real proof of work, plus headers with bad proof of work / "+
